@@ -437,6 +437,47 @@ def run_rpow(u, out):
                     out['fails'].append({'sig': 'C02|rpow|%s|r**x * r**(-x) != 1' % bn, 'case': case, 'detail': {'max_error': float(id_err.max())}})
 
 
+def run_rpow_complex(u, out):
+    """complex scalar ** real polynomial and real scalar ** complex polynomial: the result is complex and equals the
+    exponential series of x log r (evaluated here in complex double arithmetic, term by term)"""
+    import cmath
+    cases = [('complex 1.5+2j', 1.5 + 2j, False), ('np.complex128 0.5-1j', np.complex128(0.5 - 1j), False), ('float 2.0 ** complex x', 2.0, True),
+             ('complex 1-1j ** complex x', 1 - 1j, True)]
+    for bn, r, xc in cases:
+        lr = cmath.log(complex(r))
+        for (D, P) in DPS[u['tier']]:
+            for shape in [(), (2,), (2, 3)]:
+                x = fill_utpm(D, P, shape, xc, 'dense', D + 2, False) * 0.5
+                case = {'kind': 'rpow_complex', 'base': bn, 'D': D, 'P': P, 'shape': list(shape), 'tier': u['tier']}
+                out['evals'] += 1
+                out['nontrivial'] += 1
+                try:
+                    res = (r ** UTPM(x.copy())).data
+                except Exception as e:
+                    out['fails'].append({'sig': 'C02|rpow|%s|raises' % bn, 'case': case, 'detail': {'error': str(e)[:200]}})
+                    continue
+                z = x.astype(complex) * lr
+                nil = z.copy()
+                nil[0] = 0
+                term = np.zeros_like(z)
+                term[0] = 1.0
+                tot = term.copy()
+                for k in range(1, D + 1):
+                    nxt = np.zeros_like(z)
+                    for d in range(D):
+                        for c_ in range(d + 1):
+                            nxt[d] += term[c_] * nil[d - c_]
+                    term = nxt / k
+                    tot = tot + term
+                ref = tot * np.exp(z[0])
+                if not np.iscomplexobj(res):
+                    out['fails'].append({'sig': 'C02|rpow|%s|imaginary part dropped' % bn, 'case': case, 'detail': {'dtype': str(res.dtype)}})
+                    continue
+                err = np.abs(res - ref) / (np.abs(ref) + np.abs(np.exp(z[0])))
+                if res.shape != ref.shape or not np.all(err <= 1e-12):
+                    out['fails'].append({'sig': 'C02|rpow|%s|value' % bn, 'case': case, 'detail': {'max_scaled_error': float(np.max(err)) if res.shape == ref.shape else -1}})
+
+
 ALIAS_FORMS = ['same', 'reversed', 'transposed', 'overlap', 'row0', 'element']
 
 
@@ -557,6 +598,7 @@ def run_unit(u):
         return out
     if u['kind'] == 'rpow':
         run_rpow(u, out)
+        run_rpow_complex(u, out)
         return out
     if u['kind'] == 'pow':
         run_pow(u, out)
@@ -583,6 +625,9 @@ def replay(case):
     if case.get('kind') == 'alltuples':
         run_alltuples(case, out)
         return out['fails']
+    if case.get('kind') == 'rpow_complex':
+        run_rpow_complex({'tier': case.get('tier', 'quick')}, out)
+        return [f for f in out['fails'] if all(f['case'].get(k) == case.get(k) for k in ('base', 'D', 'P', 'shape'))]
     if case.get('kind') == 'rpow':
         run_rpow({'tier': case.get('tier', 'quick')}, out)
         return [f for f in out['fails'] if all(f['case'].get(k) == case.get(k) for k in ('base', 'D', 'P', 'shape'))]
